@@ -41,6 +41,13 @@ Variants(i) == {"mid"} \cup (IF Rows[i].nint > 0 THEN {"zero"} ELSE {})
                        \cup (IF Rows[i].allnull # "NONE" THEN {"allnull"} ELSE {})
 Expected(i, v) == IF v = "allnull" THEN Rows[i].allnull ELSE Rows[i].fail
 
+\* Global settings a client controls (the program name / version registered with libast_set_program_name / _version, which every
+\* guard diagnostic is built from) are NOT parameters of the contract: Allowed(i, lv) is the same under every setting, and a
+\* warning / fatal diagnostic that is printed carries the registered program name verbatim as its prefix (never as a format).
+\* checks/c16.py repeats guard events under names of 0 .. 4000 bytes (around 1012 .. 1025 byte by byte) and names made of printf
+\* conversions; the trace specification judges them with the same Allowed.
+PrefixOK(p) == p \in {"ok", "na"}
+
 \* what the two outcomes look like to an observer (used by the trace specification)
 SoftOutcome(i, v) == [ended |-> "returned", rv |-> Expected(i, v), changed |-> FALSE, heapdelta |-> 0]
 FatalOutcome    == [ended |-> "exit", diag |-> "fatal"]
